@@ -1195,6 +1195,11 @@ def violations(req, impl):
     partial_pkts = []                            # (path, set of keys omitted, keys given) of successful packets omitting items
     prev = {"ac": "", "dumps": {}}
     parsed_cache = {}
+    # the rules that state DOCUMENTED BEHAVIOUR (the op-specific post-conditions, the scalar category, get_value's code) speak about
+    # histories that keep to the documented contract: they are applied up to the first op that does not (the model driver's family
+    # `storecontract`, i.e. Model/StoreContract inContractHist); the structural rules (C05: a failed call changes nothing; invariants of
+    # every dump; independence of CIFs; queries change nothing) are applied to every op of every history
+    oc_from = storecontract.first_out_of_contract(req)
 
     def P(text):
         if text not in parsed_cache:
@@ -1260,7 +1265,8 @@ def violations(req, impl):
                 out.append((None, "%s: a query changed CIF %d" % (where, c)))
         if o not in ("itopen", "itclose", "itabort", "cif+", "cif-") and st["ac"] != prev["ac"]:
             out.append((None, "%s: autocommit status changed %s -> %s" % (where, prev["ac"], st["ac"])))
-        if rc == 0 and target in after and target in before:
+        in_contract = oc_from is None or k < oc_from
+        if in_contract and rc == 0 and target in after and target in before:
             B, A = before[target], after[target]
             path = None
             if "h" in op and op["h"] < len(ch_path):
@@ -1399,7 +1405,7 @@ def violations(req, impl):
                             out.append((None, "%s: the call changed more than one loop of its container: %r  ->  %r" % (where, gone, came)))
         if o == "itclose" and rc == 0 and target in after and target in before and st["dumps"][target] != prev["dumps"][target]:
             out.append((None, "%s: closing the iterator changed the content: %s  ->  %s" % (where, prev["dumps"][target][:300], st["dumps"][target][:300])))
-        if o == "getval" and path_of(op, ch_path) is not None and op["name"] and target in after:
+        if in_contract and o == "getval" and path_of(op, ch_path) is not None and op["name"] and target in after:
             pa = find_path(after[target], path_of(op, ch_path))
             if pa is not None and rc in (0, AMBIGUOUS_ITEM, NOSUCH_ITEM):
                 la, ia = loop_of(pa, op["name"][1]) if op["name"][2] else (None, None)
